@@ -24,6 +24,8 @@ def pool_for(kk, rng=None, n=6):
         base = [0] + rng.sample(base[1:], min(n, len(base) - 1))
     if kk != "ptr":
         base = base + [k + 1000 for k in base[1:3]]
+    elif rng is not None and rng.random() < 0.3:
+        base = base + [2**32 + 4, 2**63, 2**64 - 1]       # pointer keys are never dereferenced: any word is a key
     return base
 
 def rand_ops(rng, kind, pool, n, p_add=0.5, real_hash=False):
